@@ -186,15 +186,32 @@ func genC14(t *rapid.T) c14Case {
 	var freshURLs []string
 	for _, l := range lists {
 		for _, ln := range strings.Split(l.Text, "\n") {
+			ln = strings.TrimRight(ln, "\r")
 			if strings.HasPrefix(ln, "/uniq") && strings.HasSuffix(ln, "[0-9]/") {
 				freshURLs = append(freshURLs, "http://x.com/"+strings.TrimSuffix(strings.TrimPrefix(ln, "/"), "[0-9]/")+"7")
 			}
 		}
 	}
-	n := rapid.IntRange(50, scale(200, 400)).Draw(t, "nqueries")
+	hasPages := false
+	for _, l := range lists {
+		if strings.Contains(l.Text, "@@||page.example/checkout^$urlblock") {
+			hasPages = true
+		}
+	}
+	if hasPages && chance(t, "many-referrer-pages", 2) {
+		// many requests in flight that differ in the page of the referrer only (a document-level exception covers one page)
+		for i := rapid.IntRange(40, 120).Draw(t, "npage-queries"); i > 0; i-- {
+			c.Queries = append(c.Queries, Q{URL: "http://ads.example/x.js", Src: "http://page.example/" + pick(t, "page", []string{"checkout", "other", "cart", "checkout", "other"}), Typ: "script"})
+		}
+	}
+	n := len(c.Queries) + rapid.IntRange(50, scale(200, 400)).Draw(t, "nqueries")
 	for len(c.Queries) < n {
 		if len(c.Queries) > 0 && chance(t, "dup", 2) {
 			c.Queries = append(c.Queries, c.Queries[rapid.IntRange(0, len(c.Queries)-1).Draw(t, "dup-of")])
+			continue
+		}
+		if chance(t, "block-queries", 6) {
+			c.Queries = append(c.Queries, genBlockQueries(t)...)
 			continue
 		}
 		q := genQNear(t, models[rapid.IntRange(0, len(models)-1).Draw(t, "for")])
